@@ -11,7 +11,7 @@ def sh(cmd, timeout=2400):
 def one(sid):
     d = os.path.join("/verif/seeded", sid)
     meta = json.load(open(os.path.join(d, "meta.json")))
-    props = sorted(meta.get("checks", {}).keys()) or [meta["property"]]
+    props = EXTRA or sorted(meta.get("checks", {}).keys()) or [meta["property"]]
     wt = "/tmp/reseed-" + sid
     sh("git -C /repo worktree remove --force %s; rm -rf %s" % (wt, wt))
     sh("git -C /repo worktree add -q --detach %s HEAD" % wt)
@@ -27,8 +27,12 @@ def one(sid):
     finally:
         sh("git -C /repo worktree remove --force %s; rm -rf %s /tmp/reseed-ev-%s" % (wt, wt, sid))
     return sid, res, meta
+EXTRA = []
 def main():
     args = sys.argv[1:]
+    for a in list(args):
+        if a.startswith("--checks="):
+            EXTRA.extend(a[9:].split(",")); args.remove(a)
     j = 3
     update = "--update" in args
     args = [a for a in args if a != "--update"]
@@ -42,6 +46,6 @@ def main():
             now = any(isinstance(r, dict) and r.get("rc") == 1 for r in res.values())
             print(sid, "was", was, "now", now, {c: (r.get("rc") if isinstance(r, dict) else r) for c, r in res.items()}, flush=True)
             if update and res and "apply" not in res:
-                meta["checks"] = res; meta["detected"] = now
+                meta.setdefault("checks", {}).update(res); meta["detected"] = any(isinstance(r, dict) and r.get("rc") == 1 for r in meta["checks"].values())
                 json.dump(meta, open(os.path.join("/verif/seeded", sid, "meta.json"), "w"), indent=1)
 main()
